@@ -60,7 +60,7 @@ def gen(rng, tier):
                     r[j] = list(data[0][j])
             k = nv
         eff_idx = rng.sample(range(nv), k)  # effects in an order that differs from the file order
-        yield {"data": data, "effects": [[f"v{j}", rng.choice(BETAS)] for j in eff_idx], "h2": rng.choice(H2), "env": rng.choice(ENV), "normalize": True if many_const else rng.random() < 0.7, "K": rng.choice(PREV), "R": rng.randint(1, 3), "tape_seed": rng.randrange(2**31)}
+        yield {"data": data, "effects": [[f"v{j}", rng.choice(BETAS)] for j in eff_idx], "h2": rng.choice(H2), "env": rng.choice(ENV), "normalize": True if many_const else rng.random() < 0.7, "K": rng.choice(PREV), "R": rng.randint(1, 3), "tape_seed": rng.randrange(2**31), "bool_matrix": (not repeats) and rng.random() < 0.35}
 
 
 class FakeRng:
@@ -86,6 +86,8 @@ def build_gt(case):
     g.samples = tuple(f"s{i}" for i in range(ns))
     g.variants = np.array([(f"v{j}", "1", 10 * (j + 1)) for j in range(nv)], dtype=g.variants.dtype)
     g.data = np.array(case["data"], dtype=np.uint8).reshape((ns, nv, 2))
+    if case.get("bool_matrix"):
+        g.data = g.data.astype(np.bool_)  # what Genotypes.load() / check_biallelic() and Haplotypes.transform() hand over
     return g
 
 
@@ -202,6 +204,7 @@ def describe(case, obs):
     tags = ["normalize" if case["normalize"] else "raw", f"h2={'given' if case['h2'] is not None else 'none'}", f"env={'given' if case['env'] is not None else 'none'}", "case-control" if case["K"] is not None else "quantitative", f"R={case['R']}"]
     s = sum(b * b for _, b in case["effects"])
     tags.append("sumB2>1" if s > 1 else ("sumB2=1" if s == 1 else "sumB2<1"))
+    tags.append("bool-matrix" if case.get("bool_matrix") else "uint8-matrix")
     return tags
 
 
@@ -325,7 +328,7 @@ CHECK = Check(
             setup=setup,
             teardown=teardown,
             nontrivial=lambda c, o: C.jdump(c),
-            rule="seeded random dosage matrices (2-12 samples x 1-5 variables; SNP dosages or repeat counts (short, and long ones whose two copy numbers add up beyond 255); constant columns), effect lists in an order different from the genotype order, betas incl. 0, negative and sum beta^2 >, =, < 1, all combinations of {heritability none/1/0.5/0.25/0.8, environment none/0/0.5/1/2, normalize on/off, prevalence none/0/.../0.99}, 1-3 replications; PhenoSimulator.rng (public attribute) is replaced by a recording generator with a known tape; the recorded scale^2 is compared with the exact rational Lean noiseVar, the returned vector with sum beta*Z + eps (1e-9), case counts with floor(K n)",
+            rule="seeded random dosage matrices (2-12 samples x 1-9 variables; uint8 or – for SNPs – boolean storage as handed over by load() and Haplotypes.transform(); SNP dosages or repeat counts (short, and long ones whose two copy numbers add up beyond 255); constant columns), effect lists in an order different from the genotype order, betas incl. 0, negative and sum beta^2 >, =, < 1, all combinations of {heritability none/1/0.5/0.25/0.8, environment none/0/0.5/1/2, normalize on/off, prevalence none/0/.../0.99}, 1-3 replications; PhenoSimulator.rng (public attribute) is replaced by a recording generator with a known tape; the recorded scale^2 is compared with the exact rational Lean noiseVar, the returned vector with sum beta*Z + eps (1e-9), case counts with floor(K n)",
         ),
         Section(
             name="simulate_pt_files",
